@@ -30,7 +30,7 @@ class Fn:
                   'impl_self', 'impl_self_adt', 'impl_trait', 'trait_of', 'doc', 'unsafe_fn', 'argc',
                   'locals', 'blocks', 'caps'):
             setattr(self, k, raw[k])
-        self.file = self.file.replace('/repo/', '')
+        self.file = self.file[self.file.index('/src/') + 1:] if '/src/' in self.file else self.file.replace('/repo/', '')
         self._succ = None
         self._pred = None
         self._dom = None
@@ -207,7 +207,7 @@ class Fn:
             c = op[2]
             if 'fn' in c:
                 return 'fn:' + c['fn']
-            if c.get('named'):
+            if c.get('named') and not (str(c['named']).startswith('promoted') and c.get('v') is not None):
                 return c['named'].split('::')[-1]
             v = c.get('v')
             return 'const' if v is None else str(v)
